@@ -76,6 +76,12 @@ func (env *Env) lookupIdent(name string) (Val, bool) {
 	if name == "callresult" && env.callResult != nil {
 		return *env.callResult, true
 	}
+	if strings.HasPrefix(name, "callresult") && env.callResult != nil && env.callResult.K == kTuple {
+		var i int
+		if _, err := fmt.Sscanf(name, "callresult%d", &i); err == nil && i < len(env.callResult.Tup) {
+			return env.callResult.Tup[i], true
+		}
+	}
 	if env.results != nil {
 		for i, n := range env.resultNames() {
 			if n == name && n != "" && i < len(env.results) {
@@ -624,6 +630,31 @@ func (env *Env) evalCall(n ECall) Val {
 			limitf("%s() does not apply to %s", id.Name, g)
 		}
 		return term(fmt.Sprintf("(store %s %s %s)", m.T, e.asTerm(env.st, k), v), m.Typ)
+	case "snap":
+		// snap(s): a ghost copy (gmap[int]T, indices from 0) of the current content of slice s.
+		// Only meaningful in ghost assignments: the defining fact is added to the path condition.
+		v := env.eval(n.Args[0])
+		sl, ok := v.Typ.Underlying().(*types.Slice)
+		if !ok {
+			limitf("snap() of non-slice")
+		}
+		gt := &GhostT{Kind: "gmap", Key: tInt, Elem: sl.Elem()}
+		a := e.S.Fresh("snap", e.sortOf(gt))
+		name, sort := e.arrMapName(sl.Elem())
+		h := e.heapGet(env.st, name, sort)
+		iv := fmt.Sprintf("i!s%d", e.S.fresh)
+		is := e.S.IntSort()
+		env.st.assume(fmt.Sprintf("(forall ((%s %s)) (! (= (select %s %s) (select (select %s (sl_ref %s)) %s)) :pattern ((select %s %s))))",
+			iv, is, a, iv, h, v.T, e.arith("+", fmt.Sprintf("(sl_off %s)", v.T), iv, tInt), a, iv))
+		return term(a, gt)
+	case "callresult0", "callresult1", "callresult2":
+		limitf("callresultN is an identifier, not a function")
+	case "zero":
+		t := e.P.resolveType(n.Args[0].String(), env.pkg, env.fnForTypes())
+		return term(e.zero(t), t)
+	case "sameBacking":
+		a, b := env.eval(n.Args[0]), env.eval(n.Args[1])
+		return term(fmt.Sprintf("(and (= (sl_ref %s) (sl_ref %s)) (= (sl_off %s) (sl_off %s)))", a.T, b.T, a.T, b.T), tBool)
 	case "emptyset":
 		t := e.P.resolveType("set["+n.Args[0].String()+"]", env.pkg, env.fnForTypes())
 		return term(e.zero(t), t)
